@@ -22,7 +22,7 @@ structure Kern (α : Type) where
 def readSpec (c : StageCfg) (s : StageSt) (j : Nat) : Nat × Nat × Nat × Nat × Nat :=
   match c.kind with
   | .half => (2 * j + 1, c.prePost - 1, 0, 0, 0)
-  | .clocked => ((s.clk + j * c.step) / c.den, c.taps, (s.clk + j * c.step) % c.den, 0, 0)
+  | .clocked => ((s.clk + j * c.step) / c.den, c.prePost + 1, (s.clk + j * c.step) % c.den, 0, 0)
   | .dft => (0, s.isz, s.clk, s.remM, j)
 
 structure DStage (α : Type) where
@@ -62,7 +62,7 @@ def dctl (c : StageCfg) (s0 : StageSt) : Nat → Nat × Nat × Nat
 def unitSem (K : Kern α) (c : StageCfg) (s0 : StageSt) : UnitSem α :=
   match c.kind with
   | .half => { pos := fun u => 2 * u + 1, len := fun _ => c.prePost - 1, out := fun _ w => [K.eval c 0 0 0 w] }
-  | .clocked => { pos := fun u => (s0.clk + u * c.step) / c.den, len := fun _ => c.taps,
+  | .clocked => { pos := fun u => (s0.clk + u * c.step) / c.den, len := fun _ => c.prePost + 1,
                   out := fun u w => [K.eval c ((s0.clk + u * c.step) % c.den) 0 0 w] }
   | .dft => { pos := fun u => (dctl c s0 u).1, len := fun u => (c.dftLen - (dctl c s0 u).2.1 + c.L - 1) / c.L,
               out := fun u w => (List.range (dftProduced c (dctl c s0 u).2.2).1).map fun j =>
